@@ -138,7 +138,7 @@ def handleTiming (op : String) (j : Json) : Except String Json := do
     let qs ← getArr ratOf? j "qs"
     let g := grid defaultMaxDiv
     .ok (okJson (listToJson (fun t =>
-      let i := timeInfo g t0 cs t
+      let i := timeInfo2 g t0 cs t
       obj [("before_first", Json.bool i.beforeFirst), ("on_grid", Json.bool i.onGrid), ("beat_len", ratToJson i.beatLen),
            ("abs_beat", ratToJson i.absBeat), ("tie_margin", optToJson ratToJson i.tieMargin)]) qs))
   | "timing.snap_spec" =>
